@@ -1,9 +1,291 @@
 package props
 
-import "verif/fw"
+import (
+	"context"
+	"fmt"
+	"io"
+	"math/rand"
+	"sync"
+	"time"
 
-// c11ConnBatches is the number of leading batches that run the
-// connection-level workload.
-var c11ConnBatches = 0
+	"verif/fw"
+	"verif/sim"
 
-func runC11Conn(c *fw.Ctx) {}
+	"github.com/tsuna/gohbase"
+	"github.com/tsuna/gohbase/hrpc"
+	"github.com/tsuna/gohbase/pb"
+	"google.golang.org/protobuf/proto"
+)
+
+// C11, client level: the real client talks to a simulated server that answers
+// user requests with well-formed frames whose *content* is hostile but
+// decodable - results without cells, partial flags on empty results, short
+// counter values, missing fields, inconsistent scan flags - and with hostile
+// hbase:meta rows. The monitor is recover() around the API call (a panic in
+// the caller's goroutine), the child-process crash monitor (a panic in a client
+// goroutine) and a bounded wait (spin / hang).
+
+// c11ConnBatches is the number of leading batches that run this workload.
+var c11ConnBatches = 2
+
+func hostileCells(r *rand.Rand, row []byte) []sim.Cell {
+	n := r.Intn(4)
+	var out []sim.Cell
+	for i := 0; i < n; i++ {
+		v := rbytes(r, []int{0, 1, 3, 7, 8, 9}[r.Intn(6)])
+		out = append(out, sim.Cell{Row: row, Family: []byte("f"), Qualifier: []byte{byte('a' + i)}, TS: 1, Type: sim.TypePut, Value: v})
+	}
+	return out
+}
+
+func hostileResult(r *rand.Rand, row []byte) (*pb.Result, []sim.Cell) {
+	switch r.Intn(6) {
+	case 0:
+		return nil, nil
+	case 1:
+		return &pb.Result{}, nil
+	case 2: // cells inside the protobuf
+		res := &pb.Result{}
+		for _, c := range hostileCells(r, row) {
+			res.Cell = append(res.Cell, &pb.Cell{Row: c.Row, Family: c.Family, Qualifier: c.Qualifier, Value: c.Value})
+		}
+		if r.Intn(2) == 0 {
+			res.Cell = append(res.Cell, &pb.Cell{}) // a cell with nothing set
+		}
+		return res, nil
+	case 3:
+		res := &pb.Result{Partial: proto.Bool(true), Stale: proto.Bool(true), Exists: proto.Bool(true)}
+		return res, nil
+	default:
+		cells := hostileCells(r, row)
+		return &pb.Result{AssociatedCellCount: proto.Int32(int32(len(cells)))}, cells
+	}
+}
+
+func hostileScanResponse(r *rand.Rand, n int) (*pb.ScanResponse, []sim.Cell) {
+	resp := &pb.ScanResponse{}
+	var cells []sim.Cell
+	if r.Intn(5) != 0 {
+		resp.ScannerId = proto.Uint64(uint64(1 + r.Intn(3)))
+	}
+	flag := func() *bool {
+		switch r.Intn(3) {
+		case 0:
+			return nil
+		case 1:
+			return proto.Bool(true)
+		}
+		return proto.Bool(false)
+	}
+	resp.MoreResults, resp.MoreResultsInRegion = flag(), flag()
+	if n > 6 { // make the scan end eventually
+		resp.MoreResults = proto.Bool(false)
+	}
+	nres := r.Intn(4)
+	if r.Intn(3) == 0 {
+		// results inside the protobuf
+		for i := 0; i < nres; i++ {
+			res, _ := hostileResult(r, []byte{byte('a' + r.Intn(3))})
+			if res == nil {
+				res = &pb.Result{}
+			}
+			res.AssociatedCellCount = nil
+			res.Partial = proto.Bool(r.Intn(2) == 0)
+			resp.Results = append(resp.Results, res)
+		}
+		return resp, nil
+	}
+	for i := 0; i < nres; i++ {
+		k := r.Intn(3) // zero-cell results included
+		row := []byte{byte('a' + r.Intn(3))}
+		for j := 0; j < k; j++ {
+			cells = append(cells, sim.Cell{Row: row, Family: []byte("f"), Qualifier: []byte{byte('a' + j)}, TS: 1, Type: sim.TypePut, Value: rbytes(r, r.Intn(4))})
+		}
+		resp.CellsPerResult = append(resp.CellsPerResult, uint32(k))
+		resp.PartialFlagPerResult = append(resp.PartialFlagPerResult, r.Intn(2) == 0)
+	}
+	return resp, cells
+}
+
+func runC11Conn(c *fw.Ctx) {
+	r := c.Rand("conn")
+	n := c.Pick(2400, 40000) / c11ConnBatches
+	type job struct {
+		i    int
+		api  string
+		seed int64
+	}
+	jobs := make(chan job)
+	var wg sync.WaitGroup
+	for w := 0; w < 8; w++ {
+		wg.Add(1)
+		go func() {
+			defer wg.Done()
+			for j := range jobs {
+				runC11ClientCase(c, j.i, j.api, j.seed)
+			}
+		}()
+	}
+	for i := 0; i < n; i++ {
+		api := []string{"get", "put", "increment", "checkandput", "scan", "scan-partials", "batch", "meta"}[r.Intn(8)]
+		if i%100 == 0 {
+			c.Begin(fmt.Sprintf("cl-%d", i), api)
+		}
+		jobs <- job{i, api, r.Int63()}
+	}
+	close(jobs)
+	wg.Wait()
+}
+
+func runC11ClientCase(c *fw.Ctx, i int, api string, seed int64) {
+	{
+		id := fmt.Sprintf("cl-%d", i)
+		cl := sim.NewCluster(seed, 1)
+		cl.CreateTable("t", nil, nil)
+		rr := rand.New(rand.NewSource(seed))
+		scanN := 0
+		descr := ""
+		cl.OnRequest = func(req *sim.Request) *sim.Reply {
+			isMeta := req.Scan != nil && req.Scan.Scan != nil && string(req.Scan.GetRegion().GetValue()) == string(sim.MetaRegionName)
+			switch {
+			case isMeta && api == "meta":
+				// a hostile hbase:meta row
+				reg := cl.Regions("t")[0]
+				cells := cl.MetaRowFor(reg)
+				switch rr.Intn(6) {
+				case 0:
+					cells[0].Value = cells[0].Value[:rr.Intn(len(cells[0].Value))]
+					descr = "regioninfo truncated"
+				case 1:
+					for k := range cells {
+						cells[k].Row = [][]byte{[]byte("t"), []byte("t,"), []byte(""), []byte("nocomma"), []byte("t,,"), []byte(",,")}[rr.Intn(6)]
+					}
+					descr = fmt.Sprintf("row name %q", cells[0].Row)
+				case 2:
+					cells = cells[1:]
+					descr = "no regioninfo cell"
+				case 3:
+					cells[2].Value = nil
+					descr = "empty server"
+				case 4:
+					cells[0].Value = append([]byte("PBUF"), rbytes(rr, rr.Intn(20))...)
+					descr = "regioninfo garbage"
+				default:
+					cells[2].Value = []byte("no-port")
+					descr = "server without port"
+				}
+				resp := &pb.ScanResponse{CellsPerResult: []uint32{uint32(len(cells))}, PartialFlagPerResult: []bool{false},
+					ScannerId: proto.Uint64(5), MoreResults: proto.Bool(true), MoreResultsInRegion: proto.Bool(true)}
+				return &sim.Reply{Msg: resp, Cells: cells}
+			case isMeta:
+				return nil
+			case req.Scan != nil:
+				if req.Scan.GetCloseScanner() && req.Scan.ScannerId != nil {
+					return &sim.Reply{Msg: &pb.ScanResponse{}}
+				}
+				scanN++
+				resp, cells := hostileScanResponse(rr, scanN)
+				descr += fmt.Sprintf("scan%d{cpr=%v pf=%v res=%d mr=%v mrir=%v sid=%v} ", scanN, resp.CellsPerResult, resp.PartialFlagPerResult,
+					len(resp.Results), resp.MoreResults, resp.MoreResultsInRegion, resp.ScannerId)
+				return &sim.Reply{Msg: resp, Cells: cells}
+			case req.Single != nil && req.Single.OpID != "":
+				res, cells := hostileResult(rr, req.Single.Row)
+				descr = fmt.Sprintf("result=%v cells=%d", res, len(cells))
+				if req.Method == "Get" {
+					return &sim.Reply{Msg: &pb.GetResponse{Result: res}, Cells: cells}
+				}
+				m := &pb.MutateResponse{Result: res}
+				if rr.Intn(2) == 0 {
+					m.Processed = proto.Bool(rr.Intn(2) == 0)
+				}
+				return &sim.Reply{Msg: m, Cells: cells}
+			case req.Multi != nil:
+				resp := &pb.MultiResponse{}
+				var all []sim.Cell
+				for _, ra := range req.Multi {
+					rar := &pb.RegionActionResult{}
+					for _, a := range ra.Actions {
+						res, cells := hostileResult(rr, a.Row)
+						if res == nil {
+							res = &pb.Result{}
+						}
+						rar.ResultOrException = append(rar.ResultOrException, &pb.ResultOrException{Index: proto.Uint32(a.Index), Result: res})
+						all = append(all, cells...)
+					}
+					resp.RegionActionResult = append(resp.RegionActionResult, rar)
+				}
+				descr = fmt.Sprintf("multi %v", resp)
+				return &sim.Reply{Msg: resp, Cells: all}
+			}
+			return nil
+		}
+		client := newClient(cl, gohbase.RpcQueueSize([]int{1, 100}[rr.Intn(2)]), gohbase.FlushInterval(time.Millisecond),
+			gohbase.RegionLookupTimeout(2*time.Second), gohbase.RegionReadTimeout(2*time.Second))
+		dl := 1500 * time.Millisecond
+		if api == "meta" {
+			dl = 400 * time.Millisecond // a meta row that cannot be parsed is looked up again until the deadline
+		}
+		ctx, cancel := context.WithTimeout(context.Background(), dl)
+		opid := sim.OpIDPrefix + id
+		var pnk any
+		returned := within(10*time.Second, func() {
+			defer func() {
+				if p := recover(); p != nil {
+					pnk = sitedPanic{p, panicSite()}
+				}
+			}()
+			row := []byte("r1")
+			vals := map[string]map[string][]byte{"f": {opid: []byte("v")}}
+			switch api {
+			case "get", "meta":
+				g, _ := hrpc.NewGet(ctx, []byte("t"), row, hrpc.Families(map[string][]string{"f": {opid}}))
+				client.Get(g)
+			case "put":
+				p, _ := hrpc.NewPut(ctx, []byte("t"), row, vals)
+				client.Put(p)
+			case "increment":
+				p, _ := hrpc.NewInc(ctx, []byte("t"), row, map[string]map[string][]byte{"f": {opid: {0, 0, 0, 0, 0, 0, 0, 1}}})
+				client.Increment(p)
+			case "checkandput":
+				p, _ := hrpc.NewPut(ctx, []byte("t"), row, vals)
+				client.CheckAndPut(p, "f", "q", nil)
+			case "batch":
+				p1, _ := hrpc.NewPut(ctx, []byte("t"), row, vals)
+				g2, _ := hrpc.NewGet(ctx, []byte("t"), []byte("r2"), hrpc.Families(map[string][]string{"f": {opid + "b"}}))
+				client.SendBatch(ctx, []hrpc.Call{p1, g2})
+			case "scan", "scan-partials":
+				opts := []func(hrpc.Call) error{hrpc.Attribute("opid", []byte(opid))}
+				if api == "scan-partials" {
+					opts = append(opts, hrpc.AllowPartialResults())
+				}
+				s, _ := hrpc.NewScan(ctx, []byte("t"), opts...)
+				sc := client.Scan(s)
+				for k := 0; k < 200; k++ {
+					if _, err := sc.Next(); err != nil {
+						if err != io.EOF {
+							sc.Next()
+						}
+						break
+					}
+				}
+				sc.Close()
+			}
+		})
+		cancel()
+		c.Eval("client|"+api+"|"+fmt.Sprint(fw.Hash64(descr)%512), true)
+		c.Count("target_client-"+api, 1)
+		c.Count("client_level_cases", 1)
+		if pnk != nil {
+			c.Violate(id, "panic:"+panicClass(pnk), fmt.Sprintf("api=%s: panic in the caller's goroutine: %v; server answered: %s", api, pnk, clip(descr)),
+				map[string]string{"api": api, "responses": descr})
+		} else if !returned {
+			c.Violate(id, "hang:client-"+api, fmt.Sprintf("api=%s did not return within 10s (context deadline 3s); server answered: %s", api, clip(descr)),
+				map[string]string{"api": api, "responses": descr})
+		}
+		if i == 3 {
+			c.Sample(map[string]string{"target": "client-" + api, "responses": clip(descr)})
+		}
+		within(3*time.Second, client.Close)
+		cl.Close()
+	}
+}
